@@ -296,6 +296,8 @@ PROPS['C20'] = dict(
             # overlapping Close calls: two closers, K = 2 (safety, 1.1 M states); K = 1 with liveness in the thorough tier
             D('SubDecorator', 'MCSubDecorator_closers2_k2.cfg', workers=8),
             D('SubDecorator', 'MCSubDecorator_closers2.cfg', workers=8, tier='thorough', timeout=1800),
+            # three subscriptions, two Close calls, K = 1: 37 M states (safety)
+            D('SubDecorator', 'MCSubDecorator_subs3.cfg', workers=12, heap='20g', tier='thorough', timeout=2400),
             D('SubDecorator', 'MCSubDecorator_mut_earlyreturn.cfg', expect='fail', violates='CloseComplete'),
             D('SubDecorator', 'MCSubDecorator_mut_checkthenclose.cfg', expect='fail', violates='NoDoubleSignal'),
             # the WaitGroup protocol of the decorator on its own: TLC for 3 subscriptions x 2 Close calls, Apalache by induction below
